@@ -96,10 +96,73 @@ var Catalogue = []Item{
 	{"interface.extra-params", "type ip%di interface {\n\tarea() uint64\n}\n\ntype ip%ds struct {\n\tw uint64\n}\n\nfunc (s ip%ds) area() uint64 {\n\treturn s.w * s.w\n}\n\nfunc ip%dm(x ip%di, n uint64) uint64 {\n\treturn x.area() + n\n}\n\nfunc ip%d() uint64 {\n\tv := ip%dm(ip%ds{w: 3}, 2)\n\treturn v\n}\n", "return ip%d()", "uint64"},
 	{"interface.second-param", "type iq%di interface {\n\tarea() uint64\n}\n\ntype iq%ds struct {\n\tw uint64\n}\n\nfunc (s iq%ds) area() uint64 {\n\treturn s.w * s.w\n}\n\nfunc iq%dm(n uint64, x iq%di) uint64 {\n\treturn x.area() + n\n}\n\nfunc iq%d() uint64 {\n\tv := iq%dm(2, iq%ds{w: 3})\n\treturn v\n}\n", "return iq%d()", "uint64"},
 	{"interface.pointer-impl", "type ir%di interface {\n\tbump() uint64\n}\n\ntype ir%ds struct {\n\tw uint64\n}\n\nfunc (s *ir%ds) bump() uint64 {\n\ts.w = s.w + 1\n\treturn s.w\n}\n\nfunc ir%dm(x ir%di) uint64 {\n\treturn x.bump() + x.bump()\n}\n\nfunc ir%d() uint64 {\n\tp := &ir%ds{w: 3}\n\tv := ir%dm(p)\n\treturn v + p.w\n}\n", "return ir%d()", "uint64"},
+	{"if.init-shadow", "func ifs%d(x uint64, y uint64) uint64 {\n\tif x := y + 1; x > 10 {\n\t\treturn x\n\t}\n\treturn x\n}\n", "return ifs%d(3, 4)*100 + ifs%d(3, 40)", "uint64"},
+	{"if.init-then-use-outer", "func ifo%d(a uint64, b uint64) uint64 {\n\tn := a\n\tif n := b * 2; n > 100 {\n\t\treturn 0\n\t}\n\treturn n + 1\n}\n", "return ifo%d(3, 4)", "uint64"},
+	{"assign.define-local", "func adl%d(a uint64) uint64 {\n\tx := a\n\tx = x + 5\n\treturn x\n}\n", "return adl%d(2)", "uint64"},
+	{"assign.define-captured", "func adc%d(a uint64) uint64 {\n\tx := a\n\tf := func() uint64 {\n\t\treturn x\n\t}\n\tx = 5\n\treturn f()*10 + x\n}\n", "return adc%d(1)", "uint64"},
+	{"assign.param", "func apm%d(x uint64) uint64 {\n\tx = x + 1\n\treturn x * 2\n}\n", "return apm%d(4)", "uint64"},
+	{"assign.define-in-loop", "func adi%d(n uint64) uint64 {\n\tt := uint64(0)\n\tfor i := uint64(0); i < n; i++ {\n\t\tt = t + i\n\t}\n\treturn t\n}\n", "return adi%d(4)", "uint64"},
+	{"defer.return-order", "func dro%d(p *uint64) uint64 {\n\tdefer func() {\n\t\t*p = 7\n\t}()\n\treturn *p\n}\n", "p := new(uint64)\n\t*p = 3\n\tr := dro%d(p)\n\treturn r*10 + *p", "uint64"},
+	{"defer.lifo", "func dlf%d(p *uint64) {\n\tdefer func() {\n\t\t*p = *p * 2\n\t}()\n\tdefer func() {\n\t\t*p = *p + 3\n\t}()\n\t*p = 1\n}\n", "p := new(uint64)\n\tdlf%d(p)\n\treturn *p", "uint64"},
+	{"defer.early-return", "func der%d(p *uint64, c bool) uint64 {\n\tdefer func() {\n\t\t*p = *p + 1\n\t}()\n\tif c {\n\t\treturn 1\n\t}\n\t*p = 10\n\treturn 2\n}\n", "p := new(uint64)\n\ta := der%d(p, true)\n\tb := der%d(p, false)\n\treturn a*100 + b*50 + *p", "uint64"},
+	{"continue.nested-elseless", "func cn%d(n uint64) uint64 {\n\tvar c uint64 = 0\n\tfor i := uint64(0); i < n; i++ {\n\t\tif i > 1 {\n\t\t\tif i == 3 {\n\t\t\t\tcontinue\n\t\t\t}\n\t\t}\n\t\tc = c + 1\n\t}\n\treturn c\n}\n", "return cn%d(6)", "uint64"},
+	{"return.nested-elseless-loop", "func rnl%d(n uint64) uint64 {\n\tvar c uint64 = 0\n\tfor i := uint64(0); i < n; i++ {\n\t\tif i > 1 {\n\t\t\tif c == 100 {\n\t\t\t\tbreak\n\t\t\t}\n\t\t}\n\t\tc = c + 1\n\t}\n\treturn c\n}\n", "return rnl%d(5)", "uint64"},
+	{"return.elseif-chain-elseless", "func rec%d(x uint64) uint64 {\n\tif x > 10 {\n\t\tif x > 100 {\n\t\t\treturn 3\n\t\t} else if x > 50 {\n\t\t\treturn 2\n\t\t}\n\t}\n\treturn 1000 + x\n}\n", "return rec%d(11) + rec%d(60)*7", "uint64"},
+	{"switch.fallthrough", "func sf%d(x uint64) uint64 {\n\tvar r uint64 = 0\n\tswitch x {\n\tcase 1:\n\t\tr = r + 1\n\t\tfallthrough\n\tcase 2:\n\t\tr = r + 10\n\tdefault:\n\t\tr = r + 100\n\t}\n\treturn r\n}\n", "return sf%d(1)", "uint64"},
+	{"for.post-assign", "func fpa%d(n uint64) uint64 {\n\tvar t uint64 = 0\n\tfor i := uint64(0); i < n; i += 2 {\n\t\tt = t + i\n\t}\n\treturn t\n}\n", "return fpa%d(7)", "uint64"},
+	{"for.post-continue", "func fpc%d(n uint64) uint64 {\n\tvar t uint64 = 0\n\tfor i := uint64(0); i < n; i++ {\n\t\tif i == 2 {\n\t\t\tcontinue\n\t\t}\n\t\tt = t + i\n\t}\n\treturn t\n}\n", "return fpc%d(5)", "uint64"},
+	{"for.no-init", "func fni%d(n uint64) uint64 {\n\tvar i uint64 = 1\n\tfor ; i < n; i++ {\n\t}\n\treturn i\n}\n", "return fni%d(5)", "uint64"},
+	{"range.index-only", "func rio%d() uint64 {\n\ts := make([]uint64, 4)\n\tvar t uint64 = 0\n\tfor i := range s {\n\t\tt = t + uint64(i)\n\t}\n\treturn t\n}\n", "return rio%d()", "uint64"},
+	{"range.map-modify", "func rmm%d() uint64 {\n\tm := make(map[uint64]uint64)\n\tm[1] = 2\n\tm[3] = 4\n\tvar t uint64 = 0\n\tfor k, v := range m {\n\t\tt = t + k*v\n\t}\n\treturn t\n}\n", "return rmm%d()", "uint64"},
+	{"opassign.field", "type oaf%ds struct {\n\tn uint64\n}\n\nfunc oaf%d() uint64 {\n\tp := &oaf%ds{n: 4}\n\tp.n += 3\n\treturn p.n\n}\n", "return oaf%d()", "uint64"},
+	{"opassign.elem", "func oae%d() uint64 {\n\ts := make([]uint64, 2)\n\ts[1] += 3\n\ts[1] += 4\n\treturn s[1]\n}\n", "return oae%d()", "uint64"},
+	{"opassign.deref", "func oad%d() uint64 {\n\tp := new(uint64)\n\t*p += 3\n\t*p += 4\n\treturn *p\n}\n", "return oad%d()", "uint64"},
+	{"opassign.string", "func oas%d() uint64 {\n\tvar s string = \"ab\"\n\ts += \"cde\"\n\treturn uint64(len(s))\n}\n", "return oas%d()", "uint64"},
+	{"assign.tuple-call-existing", "func atc%dh() (uint64, uint64) {\n\treturn 3, 4\n}\n\nfunc atc%d() uint64 {\n\tvar a uint64 = 1\n\tvar b uint64 = 2\n\ta, b = atc%dh()\n\treturn a*10 + b\n}\n", "return atc%d()", "uint64"},
+	{"struct.value-copy", "type svc%ds struct {\n\tn uint64\n}\n\nfunc svc%d() uint64 {\n\tvar a svc%ds\n\ta.n = 1\n\tb := a\n\ta.n = 2\n\treturn a.n*10 + b.n\n}\n", "return svc%d()", "uint64"},
+	{"struct.value-param-mutated", "type svp%ds struct {\n\tn uint64\n}\n\nfunc svp%dh(v svp%ds) uint64 {\n\tvar w svp%ds = v\n\tw.n = w.n + 5\n\treturn w.n\n}\n\nfunc svp%d() uint64 {\n\tv := svp%ds{n: 1}\n\tr := svp%dh(v)\n\treturn r*10 + v.n\n}\n", "return svp%d()", "uint64"},
+	{"closure.loopvar", "func clv%d() uint64 {\n\tvar t uint64 = 0\n\tfor i := uint64(0); i < 3; i++ {\n\t\tf := func() uint64 {\n\t\t\treturn i * 2\n\t\t}\n\t\tt = t + f()\n\t}\n\treturn t\n}\n", "return clv%d()", "uint64"},
+	{"closure.modifies-captured", "func cmc%d() uint64 {\n\tvar x uint64 = 1\n\tf := func() {\n\t\tx = x + 10\n\t}\n\tf()\n\tf()\n\treturn x\n}\n", "return cmc%d()", "uint64"},
+	{"shift.ge-width", "func sgw%d(x uint64, n uint64) uint64 {\n\treturn (x << n) + (x >> n)\n}\n", "return sgw%d(5, 64) + sgw%d(5, 65)", "uint64"},
+	{"shift.u8-wide-count", "func suw%d(x byte, n byte) byte {\n\treturn x << n\n}\n", "return suw%d(3, 9)", "byte"},
+	{"div.by-const", "func dbc%d(x uint64) uint64 {\n\treturn x/3 + x%%3\n}\n", "return dbc%d(17)", "uint64"},
+	{"cmp.chain-bool", "func ccb%d(a uint64, b uint64) bool {\n\treturn a < b == (b > a)\n}\n", "return ccb%d(1, 2)", "bool"},
+	{"bool.short-circuit-effect", "func bse%dh(p *uint64) bool {\n\t*p = *p + 1\n\treturn true\n}\n\nfunc bse%d() uint64 {\n\tp := new(uint64)\n\tif false && bse%dh(p) {\n\t\treturn 100\n\t}\n\tif true || bse%dh(p) {\n\t\treturn *p\n\t}\n\treturn 50\n}\n", "return bse%d()", "uint64"},
+	{"slice.append-alias", "func saa%d() uint64 {\n\ta := make([]uint64, 1, 4)\n\tb := append(a, 7)\n\tc := append(a, 9)\n\treturn b[1]*10 + c[1]\n}\n", "return saa%d()", "uint64"},
+	{"slice.subslice-cap", "func ssc%d() uint64 {\n\ta := make([]uint64, 4)\n\tb := a[1:2]\n\tb = append(b, 5)\n\treturn a[2]*10 + uint64(cap(b))\n}\n", "return ssc%d()", "uint64"},
+	{"slice.nil-append", "func sna%d() uint64 {\n\tvar s []uint64\n\ts = append(s, 4)\n\treturn s[0] + uint64(len(s))\n}\n", "return sna%d()", "uint64"},
+	{"map.missing-key-zero", "func mmk%d() uint64 {\n\tm := make(map[uint64]uint64)\n\tm[1] = 5\n\tv, ok := m[2]\n\tif ok {\n\t\treturn 100\n\t}\n\treturn v + m[1] + m[7]\n}\n", "return mmk%d()", "uint64"},
+	{"map.struct-values", "type msv%ds struct {\n\ta uint64\n\tb bool\n}\n\nfunc msv%d() uint64 {\n\tm := make(map[uint64]msv%ds)\n\tm[1] = msv%ds{a: 4, b: true}\n\tv := m[1]\n\tw := m[2]\n\tif v.b && !w.b {\n\t\treturn v.a + w.a\n\t}\n\treturn 0\n}\n", "return msv%d()", "uint64"},
+	{"string.concat-conv", "func scc%d(x uint64) uint64 {\n\ts := machine.UInt64ToString(x) + \"-\" + machine.UInt64ToString(x+1)\n\treturn uint64(len(s))\n}\n", "return scc%d(99)", "uint64"},
+	{"string.bytes-roundtrip", "func sbr%d() uint64 {\n\tb := []byte(\"abc\")\n\tb[1] = 120\n\ts := string(b)\n\tif s == \"axc\" {\n\t\treturn uint64(len(s))\n\t}\n\treturn 0\n}\n", "return sbr%d()", "uint64"},
+	{"string.percent", "func spc%d(c bool) (uint64, string) {\n\tif c {\n\t\treturn 1, \"100%%\"\n\t}\n\treturn 2, \"n=%%s\"\n}\n\nfunc spd%d() uint64 {\n\ta, s := spc%d(true)\n\tb, t := spc%d(false)\n\treturn a + b*10 + uint64(len(s))*100 + uint64(len(t))*1000\n}\n", "return spd%d()", "uint64"},
+	{"method.on-named-slice", "type mns%dt []uint64\n\nfunc (s mns%dt) sum() uint64 {\n\tvar t uint64 = 0\n\tfor _, x := range s {\n\t\tt = t + x\n\t}\n\treturn t\n}\n\nfunc mns%d() uint64 {\n\tvar s mns%dt = make([]uint64, 3)\n\ts[1] = 5\n\treturn s.sum()\n}\n", "return mns%d()", "uint64"},
+	{"method.recursive-named-int", "type mri%dt uint64\n\nfunc (n mri%dt) halvings() uint64 {\n\tif n == 0 {\n\t\treturn 0\n\t}\n\treturn (n / 2).halvings() + 1\n}\n", "return mri%dt(40).halvings()", "uint64"},
+	{"nil.func", "func nfn%d() uint64 {\n\tvar f func() uint64\n\tif f == nil {\n\t\treturn 1\n\t}\n\treturn f()\n}\n", "return nfn%d()", "uint64"},
+	{"ptr.to-ptr", "func ptp%d() uint64 {\n\tx := new(uint64)\n\tpp := new(*uint64)\n\t*pp = x\n\t**pp = 9\n\treturn *x\n}\n", "return ptp%d()", "uint64"},
+	{"ptr.compare", "func pcm%d() uint64 {\n\ta := new(uint64)\n\tb := new(uint64)\n\tc := a\n\tvar r uint64 = 0\n\tif a == b {\n\t\tr = r + 1\n\t}\n\tif a == c {\n\t\tr = r + 10\n\t}\n\treturn r\n}\n", "return pcm%d()", "uint64"},
+	{"const.expr-typed", "const cet%da uint64 = 1 << 40\n\nconst cet%db uint32 = 1<<32 - 1\n\nfunc cet%d() uint64 {\n\treturn cet%da + uint64(cet%db)\n}\n", "return cet%d()", "uint64"},
+	{"const.untyped-global", "const cug%d = 7\n\nfunc cug%df(x uint32) uint32 {\n\treturn x + cug%d\n}\n", "return cug%df(4294967295)", "uint32"},
 	{"generic.func", "func gf%d[T any](x T, y T, first bool) T {\n\tif first {\n\t\treturn x\n\t}\n\treturn y\n}\n", "return gf%d[uint64](3, 4, false)", "uint64"},
 	{"init.func", "var in%dv uint64\n\nfunc in%d() uint64 {\n\treturn in%dv\n}\n", "return in%d()", "uint64"},
 	{"blank.assign-call", "func ba%dh(p *uint64) uint64 {\n\t*p = 3\n\treturn 1\n}\n\nfunc ba%d() uint64 {\n\tp := new(uint64)\n\t_ = ba%dh(p)\n\treturn *p\n}\n", "return ba%d()", "uint64"},
 	{"u64tostring", "func us%d(x uint64) uint64 {\n\ts := machine.UInt64ToString(x)\n\treturn uint64(len(s))\n}\n", "return us%d(18446744073709551615)", "uint64"},
+}
+
+// RejectedAtPin: catalogue constructs that the pinned translator answers with a conversion error. They are the
+// boundary of the accepted subset: a translator that starts to accept one of them has enlarged the subset, and the
+// construct then falls under "accepted programs keep their meaning" (C01) as well as under C02.
+var RejectedAtPin = map[string]bool{"array": true, "assign.complex-lvalue": true, "assign.define-captured": true, "assign.define-in-loop": true, "assign.define-local": true, "assign.param": true, "assign.swap": true, "break.nested-elseless": true, "const.iota": true, "const.untyped-global": true, "continue.nested-elseless": true, "defer": true, "defer.early-return": true, "defer.lifo": true, "defer.return-order": true, "define.multi": true, "global.var-mutated": true, "go.args": true, "goto": true, "if.init": true, "if.init-shadow": true, "if.init-then-use-outer": true, "incdec.elem": true, "incdec.field": true, "init.func": true, "int.signed": true, "label.break-outer": true, "label.continue-outer": true, "literal.huge": true, "literal.huge2": true, "lookalike.len": true, "map.literal": true, "method.on-named-slice": true, "named-results": true, "named-results.explicit": true, "nil.func": true, "op.andnot": true, "op.unary-minus": true, "op.unary-plus": true, "opassign.andnot": true, "opassign.div": true, "opassign.mul": true, "opassign.rem": true, "opassign.shl": true, "opassign.shr": true, "range.int": true, "return.else-after-early": true, "return.elseif-chain-elseless": true, "return.in-loop": true, "return.nested-elseless": true, "return.nested-elseless-loop": true, "slice.3index": true, "slice.full": true, "slice.literal-multi": true, "slice.subslice-cap": true, "string.index": true, "string.range": true, "struct.anonymous": true, "struct.embedded": true, "struct.unkeyed": true, "switch": true, "switch.fallthrough": true, "switch.tagless": true}
+
+// Imports lists the standard-library imports an item needs (found by inspection of its text).
+func (it Item) Imports() []string {
+	var out []string
+	for _, p := range []string{"sync", "fmt", "errors", "sort", "strings", "unsafe", "math", "time", "os"} {
+		if strings.Contains(it.Decls+it.Entry, p+".") {
+			out = append(out, p)
+		}
+	}
+	return out
 }
 
 // Instantiate replaces every %d with n and returns (declarations, entry function text).
